@@ -256,6 +256,47 @@ pub fn run(ctx: &'static Ctx) {
             }
         }
     });
+    // the same sites with many small children instead of one large one (a count-dependent step taken before or after the
+    // length is computed shows only here); the Package kinds may refuse more than 255 elements, nothing else may refuse
+    let counts: Vec<usize> = (0..=300usize).chain([1000, 4096, 65_535, 65_536, 65_537]).collect();
+    let mwork: Vec<(usize, usize, usize)> = (0..SIZED_KINDS.len())
+        .filter(|k| crate::amlobj::takes_children(*k))
+        .flat_map(|k| counts.iter().flat_map(move |n| [1usize, 2, 9].into_iter().map(move |w| (k, *n, w))))
+        .collect();
+    let mbound = AtomicU64::new(0);
+    let mrefused = AtomicU64::new(0);
+    mwork.par_iter().for_each(|(k, n, w)| {
+        let rep = || json!({"family":"pkglen-site","kind":SIZED_KINDS[*k],"children":n,"child_width":w});
+        let may_refuse = matches!(SIZED_KINDS[*k], "Package" | "PackageBuilder") && *n > 255;
+        let b = match catch(|| crate::amlobj::sized_many(*k, *n, *w)) {
+            Ok(b) => b,
+            Err(_) if may_refuse => {
+                mrefused.fetch_add(1, Ordering::Relaxed);
+                return;
+            }
+            Err(m) => {
+                ctx.violation_sized(&format!("pkglen:site:{}:panic", SIZED_KINDS[*k]), *n as u64, || format!("{} with {} children of {} bytes panicked: {}", SIZED_KINDS[*k], n, w, m), rep);
+                return;
+            }
+        };
+        let ol = opcode_len(*k);
+        let rest = b.len() - ol;
+        mbound.fetch_add(1, Ordering::Relaxed);
+        match pkg_decode(&b[ol..]) {
+            Some((v, pw, fmt)) if fmt && v == rest && Some(pw) == pkg_width_inclusive(rest - pw) => {}
+            other => {
+                ctx.violation_sized(
+                    &format!("pkglen:site:{}", SIZED_KINDS[*k]),
+                    *n as u64,
+                    || format!("{} with {} children of {} bytes: {} bytes follow the opcode but its PkgLength {} decodes to {:?}", SIZED_KINDS[*k], n, w, rest, hex(&b[ol..(ol + 4).min(b.len())]), other),
+                    rep,
+                );
+            }
+        }
+    });
+    ctx.tr(mbound.load(Ordering::Relaxed));
+    ctx.st(mbound.load(Ordering::Relaxed));
+    ctx.engine("E4.call-site-many-children", json!({"counts": "0..=300, 1000, 4096, 65535, 65536, 65537", "child_widths": [1, 2, 9], "objects": mbound.load(Ordering::Relaxed), "refused_packages_over_255": mrefused.load(Ordering::Relaxed)}));
     ctx.tr(vbound.load(Ordering::Relaxed));
     ctx.st(vbound.load(Ordering::Relaxed));
     ctx.engine("E4.call-site-variants", json!({"name_forms": crate::amlobj::NAME_VARIANTS, "direct_64bit_child": [false, true], "body_pads": "0..=300, 4060..=4110, 2^20-40..=2^20", "objects": vbound.load(Ordering::Relaxed)}));
